@@ -6,6 +6,7 @@
  R9.3  `%s` conversions of the token readers never target a fixed buffer shorter than the tokenizer's line buffer
  R9.4  error branches of bool readers report failure
  R9.5  no status of a reading primitive / nested reader is dropped
+ R9.8  counted appends leave the loop with `>=` on the announced count (c09_arrays.py)
  R9.7  fixed-size local arrays indexed under a file-derived bound are guarded on every path (c09_arrays.py)
 """
 import os
@@ -324,4 +325,5 @@ def main(tier):
     c09_taint.r9_2(prog, wprog, chk)
     import c09_arrays
     c09_arrays.r9_7(prog, chk)
+    c09_arrays.r9_8(prog, chk)
     return chk.finish()
